@@ -8,4 +8,10 @@ CHECKS = {
         "level": "Generated-input search: 100k (quick) / 16M (thorough) (frequency, time, n) triples weighted to period boundaries and the top of the 64-bit range, each compared with exact math/big arithmetic. Finds any arithmetic slip that shows on a sampled triple; does not prove all 2^64 x 10^12 inputs.",
         "note": "Trusts math/big and the harness' reading of 'results fit in 64 bits' (each operation is only judged when its exact result < 2^64).",
     },
+    "C16": {
+        "pkg": "memsyschk", "floor_quick": 20,
+        "technique": "property-based testing (rapid): generated assembly + workload vs flat reference memory",
+        "level": "Generated-input search over compositions of the real caches/ROB/memories with small geometries and generated request streams; every read checked against a flat reference memory, every request checked for exactly one matching response, quiescence decided by the empty event queue. Exploration only: bounded geometries and stream lengths.",
+        "note": "Trusts the harness requester (stalls instead of overlapping in-flight bytes), the reference memory, and the reading that a masked write does not touch masked-off bytes. DRAM bottoms are exercised by C22's harness.",
+    },
 }
